@@ -4,6 +4,7 @@ package main
 
 import (
 	"fmt"
+	"sort"
 	"go/ast"
 	"go/token"
 	"go/types"
@@ -136,19 +137,59 @@ func structFields(ty types.Type) []*types.Var {
 	return r
 }
 
-// pathVar: the synthetic variable that stands for the location denoted by a field path (keyed by its printed form).
-func (t *tr) pathVar(e ast.Expr) *types.Var {
-	return t.pathVarNamed(t.src(e), e.Pos(), t.typeOf(e))
+// pathKey: canonical printed form of a field path: the receiver is `r`, the i-th parameter `a<i>`, a local root keeps its
+// Go name (plus its declaration position; it never reaches the generated text)
+func (t *tr) pathKey(e ast.Expr) string {
+	switch x := e.(type) {
+	case *ast.ParenExpr:
+		return t.pathKey(x.X)
+	case *ast.StarExpr:
+		return t.pathKey(x.X)
+	case *ast.SelectorExpr:
+		return t.pathKey(x.X) + "." + x.Sel.Name
+	case *ast.Ident:
+		o := t.objOf(x)
+		if c, ok := t.f.rootCanon[o]; ok {
+			return c
+		}
+		if o != nil {
+			return fmt.Sprintf("%s#%d", x.Name, o.Pos())
+		}
+		return x.Name
+	}
+	return t.src(e)
 }
 
-func (t *tr) pathVarNamed(src string, pos token.Pos, ty types.Type) *types.Var {
-	src = strings.NewReplacer("(", "", ")", "", "*", "").Replace(src)
-	if v, ok := t.f.pvars[src]; ok {
+func localKey(o types.Object) string { return fmt.Sprintf("%s#%d", o.Name(), o.Pos()) }
+
+// pathVar: the synthetic variable that stands for the location denoted by a field path (keyed by its canonical form).
+func (t *tr) pathVar(e ast.Expr) *types.Var {
+	v := t.pathVarNamed(t.pathKey(e), e.Pos(), t.typeOf(e))
+	if _, ok := t.f.legacyOf[v.Name()]; !ok {
+		t.f.legacyOf[v.Name()] = pathName(t.src(e))
+	}
+	return v
+}
+
+func (t *tr) pathVarNamed(key string, pos token.Pos, ty types.Type) *types.Var {
+	if v, ok := t.f.pvars[key]; ok {
 		return v
 	}
-	v := types.NewVar(pos, t.u.pkg, pathName(src), ty)
-	t.f.pvars[src] = v
+	v := types.NewVar(pos, t.u.pkg, pathName(key), ty)
+	t.f.pvars[key] = v
 	return v
+}
+
+// canonPathFlag: a path written in a flag (`r.w`, or with the Go receiver / parameter name `w.w`) in canonical form
+func (t *tr) canonPathFlag(p string) string {
+	root, rest, ok := strings.Cut(p, ".")
+	if c, isParam := t.f.goParams[root]; isParam {
+		root = c
+	}
+	if !ok {
+		return root
+	}
+	return root + "." + rest
 }
 
 // leanResult: (T1, …, Tn) → T1 × … × Tn, a trailing `error` turns the rest into an Option.
@@ -243,6 +284,18 @@ type fctx struct {
 	nres     int  // number of non-error results
 	errVars  map[types.Object]bool // error variables known to be non-nil here
 	loopN    int
+	vcount   int                     // canonical numbering of the SSA definitions of this definition group: v1, v2, …
+	bcount   int                     // canonical numbering of lambda-bound variables: b1, b2, …
+	names    []nameRec               // canonical name -> Go local, for the comment block and the one-off proof migration
+	curPos   token.Pos               // position of the statement being translated
+	order    map[types.Object]int    // rank of a variable: parameters by position, locals by their first definition
+	ordN     int
+	rootCanon map[types.Object]string // receiver -> "r", i-th parameter -> "a<i>"
+	patterns []string                // callee patterns of the flags given for this function
+	legacyOf map[string]string       // canonical field-path variable name -> its old, Go-named form (one-off proof migration)
+	goParams map[string]string       // Go name of receiver / parameter -> canonical root (for flag paths written with Go names)
+	sortedRuns map[ast.Stmt]bool // statements of initialisation runs already put into canonical order
+	knownEmpty map[string]bool   // Lean expressions known to denote the empty byte string (make([]byte, 0, n), nil, []byte{})
 	loops    []*loopCtx // enclosing general loops (innermost last)
 	stateful     bool                    // see stateful.go
 	stateObjs    []types.Object          // written receiver fields and external objects: first components of the result
@@ -262,7 +315,8 @@ func newFctx(name string, opaque []opq) *fctx {
 		blockops: map[string]opq{}, abstract: map[string]bool{}, objRoots: map[types.Object][]*types.Var{},
 		applyops: map[string]opq{}, fillops: map[string]opq{}, inouts: map[string]opq{}, mutops: map[string]opq{}, closures: map[types.Object]*ast.FuncLit{}, closureLits: map[types.Object]*ast.FuncLit{}, ctors: map[string]int{}, views: map[types.Object]*view{},
 		viewRoot: map[types.Object]types.Object{}, viewVars: map[types.Object][2]*types.Var{},
-		externRead: map[string]bool{}, externValue: map[string]bool{}, typeOverride: map[types.Object]string{}}
+		externRead: map[string]bool{}, externValue: map[string]bool{}, typeOverride: map[types.Object]string{},
+		order: map[types.Object]int{}, rootCanon: map[types.Object]string{}, goParams: map[string]string{}, legacyOf: map[string]string{}}
 	for _, o := range opaque {
 		f.opaque[o.callee] = o
 	}
@@ -294,20 +348,82 @@ func (f *fctx) hasBinder(n string) bool {
 	return false
 }
 
+type nameRec struct {
+	canon, goName, legacy string
+	line                  int
+}
+
 // define emits an auxiliary definition for a new version of a Go local and returns the expression naming it.
+// The Lean name is CANONICAL: v<k>, k counting the definitions of the function in translation order — never the Go
+// local's name, so that renaming a local does not change the generated text.  (The Go name is kept in a comment.)
 func (t *tr) define(name, ty, value string) string {
 	f := t.f
-	f.count[name]++
-	ln := leanName(name)
-	if f.count[name] > 1 {
-		ln = fmt.Sprintf("%s_%d", name, f.count[name])
+	lname := name
+	if l, ok := f.legacyOf[name]; ok {
+		lname = l
 	}
+	f.count[lname]++
+	legacy := leanName(lname)
+	if f.count[lname] > 1 {
+		legacy = fmt.Sprintf("%s_%d", lname, f.count[lname])
+	}
+	f.vcount++
+	ln := fmt.Sprintf("v%d", f.vcount)
 	full := f.name + "." + ln
-	f.aux = append(f.aux, fmt.Sprintf("def %s %s : %s :=\n  %s\n", full, f.binderDecl(), ty, value))
-	if len(f.binders) == 0 {
-		return full
+	line := 0
+	if f.curPos.IsValid() {
+		line = t.fset.Position(f.curPos).Line
 	}
-	return "(" + full + " " + f.args() + ")"
+	f.names = append(f.names, nameRec{full, name, f.name + "." + legacy, line})
+	f.aux = append(f.aux, fmt.Sprintf("def %s %s : %s :=\n  %s\n", full, f.binderDecl(), ty, value))
+	ref := full
+	if len(f.binders) > 0 {
+		ref = "(" + full + " " + f.args() + ")"
+	}
+	if value == "([] : Bytes)" {
+		if f.knownEmpty == nil {
+			f.knownEmpty = map[string]bool{}
+		}
+		f.knownEmpty[ref] = true
+	}
+	return ref
+}
+
+// rank records the canonical order of variables (parameters first, then locals in order of first definition); loop
+// states and if-joins are ordered by it, not by source position
+func (t *tr) rank(o types.Object) int {
+	if r, ok := t.f.order[o]; ok {
+		return r
+	}
+	t.f.ordN++
+	t.f.order[o] = t.f.ordN
+	return t.f.ordN
+}
+
+// rankAll gives the not yet ranked objects of a set their ranks in order of (first) occurrence in the source, so that
+// sorting by rank is deterministic; translation visits the source in canonical order, so ranks follow it
+func (t *tr) rankAll(objs []types.Object) {
+	var un []types.Object
+	for _, o := range objs {
+		if _, ok := t.f.order[o]; !ok {
+			un = append(un, o)
+		}
+	}
+	sort.Slice(un, func(i, j int) bool {
+		if un[i].Pos() != un[j].Pos() {
+			return un[i].Pos() < un[j].Pos()
+		}
+		return un[i].Name() < un[j].Name()
+	})
+	for _, o := range un {
+		t.rank(o)
+	}
+}
+
+// newBinderName: canonical name of a lambda-bound variable (the value of `x, err := f()`, a procedure's result)
+func (t *tr) newBinderName() string {
+	t.f.bcount++
+	return fmt.Sprintf("b%d", t.f.bcount)
 }
 
 func (t *tr) objOf(id *ast.Ident) types.Object {
@@ -348,6 +464,13 @@ func (t *tr) isFieldPath(e ast.Expr) bool {
 }
 
 func pathName(src string) string {
+	if i := strings.IndexByte(src, '#'); i >= 0 { // local root `name#pos.f`
+		if j := strings.IndexByte(src[i:], '.'); j >= 0 {
+			src = src[:i] + src[i+j:]
+		} else {
+			src = src[:i]
+		}
+	}
 	r := strings.NewReplacer(".", "_", "(", "", ")", "", "*", "")
 	return leanName(r.Replace(src))
 }
@@ -387,7 +510,7 @@ func (t *tr) expr(e ast.Expr) string {
 			// a local struct object as a value: the tuple of its fields
 			var vs []string
 			for _, fld := range fs {
-				fv, ok := t.f.env[t.pathVarNamed(x.Name+"."+fld.Name(), x.Pos(), fld.Type())]
+				fv, ok := t.f.env[t.pathVarNamed(localKey(obj)+"."+fld.Name(), x.Pos(), fld.Type())]
 				if !ok {
 					return t.fail(e, "field %s.%s has no value here", x.Name, fld.Name())
 				}
@@ -410,6 +533,7 @@ func (t *tr) expr(e ast.Expr) string {
 	case *ast.SelectorExpr:
 		if _, ok := t.u.info.Selections[x]; ok && t.isFieldPath(x) {
 			if p, ok := t.f.env[t.pathVar(x)]; ok {
+				t.rank(t.pathVar(x))
 				return p
 			}
 		}
@@ -444,6 +568,9 @@ func (t *tr) expr(e ast.Expr) string {
 		if k, _ := t.kindOf(x.X); k == kSet {
 			return fmt.Sprintf("(decide (%s ∈ %s))", t.expr(x.Index), t.expr(x.X))
 		}
+		if k, _ := t.kindOf(x.X); k == kRecList {
+			return fmt.Sprintf("(GoSem.listAt %s %s)", t.expr(x.X), t.intExpr(x.Index))
+		}
 		if k, _ := t.kindOf(x.X); k != kBytes {
 			return t.fail(e, "index into %s", t.typeOf(x.X))
 		}
@@ -466,6 +593,9 @@ func (t *tr) expr(e ast.Expr) string {
 		return fmt.Sprintf("(GoSem.slice %s %s %s)", base, lo, hi)
 	case *ast.CompositeLit:
 		if k, _ := t.kindOf(x); k != kBytes {
+			if st, ok := t.typeOf(x).Underlying().(*types.Struct); ok && st.NumFields() == 0 {
+				return "()"
+			}
 			if st, ok := t.typeOf(x).Underlying().(*types.Struct); ok {
 				// a struct value: the tuple of its fields of a supported type (zero unless given)
 				fields := structFields(t.typeOf(x))
@@ -632,7 +762,12 @@ func (t *tr) binary(X ast.Expr, op token.Token, Y ast.Expr, ty types.Type, n ast
 		case kByte:
 			c, ok := t.shiftCount(Y, 8)
 			if !ok {
-				return t.fail(n, "byte shift by a non-constant or ≥ 8 count")
+				// variable count: through Nat (a Go byte shifted by ≥ 8 is 0; UInt8 shifts would reduce the count mod 8)
+				cnt := t.natCount(Y, n)
+				if op == token.SHL {
+					return fmt.Sprintf("(UInt8.ofNat ((%s.toNat <<< %s) %% 256))", a, cnt)
+				}
+				return fmt.Sprintf("(UInt8.ofNat (%s.toNat >>> %s))", a, cnt)
 			}
 			if op == token.SHL {
 				return fmt.Sprintf("(%s <<< (%s : UInt8))", a, c)
@@ -641,10 +776,7 @@ func (t *tr) binary(X ast.Expr, op token.Token, Y ast.Expr, ty types.Type, n ast
 		case kNat:
 			c, ok := t.shiftCount(Y, 0)
 			if !ok {
-				if ky, _ := t.kindOf(Y); ky != kNat {
-					return t.fail(n, "shift by a non-constant signed count")
-				}
-				c = t.expr(Y)
+				c = t.natCount(Y, n)
 			}
 			if op == token.SHL {
 				return fmt.Sprintf("((%s <<< %s) %% %s)", a, c, pow2(w))
@@ -728,6 +860,19 @@ func (t *tr) binary(X ast.Expr, op token.Token, Y ast.Expr, ty types.Type, n ast
 	return t.fail(n, "operator %s on %s", op, ty)
 }
 
+// natCount: a variable shift count as a Nat (Go panics on a negative count: `.toNat` gives 0 there — junk like other panics)
+func (t *tr) natCount(Y ast.Expr, n ast.Node) string {
+	switch ky, _ := t.kindOf(Y); ky {
+	case kNat:
+		return t.expr(Y)
+	case kInt:
+		return "(" + t.expr(Y) + ").toNat"
+	case kByte:
+		return t.expr(Y) + ".toNat"
+	}
+	return t.fail(n, "shift count of type %s", t.typeOf(Y))
+}
+
 func (t *tr) convert(c *ast.CallExpr, dst types.Type) string {
 	if len(c.Args) != 1 {
 		return t.fail(c, "conversion arity")
@@ -807,6 +952,47 @@ func (t *tr) stdCallee(fun ast.Expr) (pkg, recv, name string) {
 	return
 }
 
+// calleeKeys: the forms under which a flag may name the callee of a call: the printed source (`c.bc.Encrypt`), the source
+// with the receiver / parameter root made canonical (`r.bc.Encrypt`, `a0.id`), and the method / function by type
+// (`(crypto/cipher.Block).Encrypt`, `crypto/aes.NewCipher`; the module prefix is dropped) — the last two do not depend
+// on the names of Go locals.
+func (t *tr) calleeKeys(c *ast.CallExpr) []string {
+	keys := []string{t.src(c.Fun)}
+	strip := func(s string) string { return strings.ReplaceAll(s, modulePath, "") }
+	switch x := c.Fun.(type) {
+	case *ast.SelectorExpr:
+		if sel, ok := t.u.info.Selections[x]; ok {
+			keys = append(keys, t.pathKey(x.X)+"."+x.Sel.Name)
+			if fn, ok := sel.Obj().(*types.Func); ok {
+				keys = append(keys, strip(fn.FullName()))
+				// also by the static type of the receiver expression (an interface field calls the interface's method)
+				keys = append(keys, "("+strip(types.TypeString(t.typeOf(x.X), nil))+")."+x.Sel.Name)
+			}
+		} else if fn, ok := t.u.info.Uses[x.Sel].(*types.Func); ok {
+			keys = append(keys, strip(fn.FullName()))
+		}
+	case *ast.Ident:
+		if fn, ok := t.u.info.Uses[x].(*types.Func); ok && fn.Pkg() != t.u.pkg {
+			keys = append(keys, strip(fn.FullName()))
+		}
+	}
+	return keys
+}
+
+// ck: the flag pattern that names this call's callee (the printed source if no flag does)
+func (t *tr) ck(c *ast.CallExpr) string {
+	if t.f != nil && len(t.f.patterns) > 0 {
+		for _, k := range t.calleeKeys(c) {
+			for _, p := range t.f.patterns {
+				if p == k {
+					return p
+				}
+			}
+		}
+	}
+	return t.src(c.Fun)
+}
+
 func (t *tr) unitOfPath(path string) *unit {
 	for _, u := range t.units {
 		if modulePath+u.dir == path {
@@ -821,13 +1007,13 @@ func (t *tr) call(c *ast.CallExpr) string {
 	if tv, ok := info.Types[c.Fun]; ok && tv.IsType() {
 		return t.convert(c, tv.Type)
 	}
-	if idx, ok := t.f.ctors[t.src(c.Fun)]; ok {
+	if idx, ok := t.f.ctors[t.ck(c)]; ok {
 		if idx >= len(c.Args) {
 			return t.fail(c, "-ctor argument index")
 		}
 		return t.expr(c.Args[idx])
 	}
-	if o, ok := t.f.inouts[t.src(c.Fun)]; ok {
+	if o, ok := t.f.inouts[t.ck(c)]; ok {
 		// in expression position only with a nil destination: nothing of the caller's is written
 		if id, isId := c.Args[0].(*ast.Ident); !isId || id.Name != "nil" {
 			return t.fail(c, "-inout call %s with a destination in expression position", t.src(c.Fun))
@@ -838,7 +1024,7 @@ func (t *tr) call(c *ast.CallExpr) string {
 		}
 		return "(" + leanName(o.name) + " " + strings.Join(args, " ") + ")"
 	}
-	if o, ok := t.f.opaque[t.src(c.Fun)]; ok {
+	if o, ok := t.f.opaque[t.ck(c)]; ok {
 		var args []string
 		if sel, isSel := c.Fun.(*ast.SelectorExpr); isSel {
 			if kr, _ := t.kindOf(sel.X); kr == kAbs {
@@ -874,18 +1060,28 @@ func (t *tr) call(c *ast.CallExpr) string {
 				if k, _ := classify(t.typeOf(c)); k != kBytes || len(c.Args) < 2 {
 					return t.fail(c, "make of %s", t.typeOf(c))
 				}
+				if tv := t.u.info.Types[c.Args[1]]; tv.Value != nil && tv.Value.ExactString() == "0" {
+					return "([] : Bytes)" // make([]byte, 0, n): an empty buffer to append to
+				}
 				return "(GoSem.makeBytes " + t.intExpr(c.Args[1]) + ")"
 			case "append":
 				if k, _ := classify(t.typeOf(c)); k != kBytes {
 					return t.fail(c, "append on %s", t.typeOf(c))
 				}
 				base := t.expr(c.Args[0])
+				empty := base == "([] : Bytes)" || t.f.knownEmpty[base]
 				if c.Ellipsis.IsValid() {
+					if empty {
+						return t.expr(c.Args[1]) // append(<empty>, x...) is a fresh copy of x
+					}
 					return "(" + base + " ++ " + t.expr(c.Args[1]) + ")"
 				}
 				var els []string
 				for _, a := range c.Args[1:] {
 					els = append(els, t.expr(a))
+				}
+				if empty {
+					return "([" + strings.Join(els, ", ") + "] : Bytes)"
 				}
 				return "(" + base + " ++ [" + strings.Join(els, ", ") + "])"
 			}
@@ -899,6 +1095,9 @@ func (t *tr) call(c *ast.CallExpr) string {
 					}
 				}
 				return t.fail(c, "builtin %s in an expression", id.Name)
+		}
+		if sg := t.calleeSig(c); sg != nil && sg.nImplicit > 0 && !sg.proc {
+			return t.callSig(id.Name, sg, c)
 		}
 		if t.u.emitted[id.Name] {
 			return t.callTranslated(t.u, id.Name, nil, c)
@@ -955,6 +1154,9 @@ func (t *tr) call(c *ast.CallExpr) string {
 		if k, _ := t.kindOf(c.Args[0]); k == kBytes {
 			return "(decide (" + argv()[0] + " = " + argv()[1] + "))"
 		}
+	case pkg == "bytes" && name == "HasPrefix" && len(c.Args) == 2:
+		a, p := argv()[0], argv()[1]
+		return fmt.Sprintf("(decide (((GoSem.len %s) ≥ (GoSem.len %s)) ∧ ((GoSem.slice %s (0 : Int) (GoSem.len %s)) = %s)))", a, p, a, p, p)
 	case pkg == "bytes" && name == "Equal" && len(c.Args) == 2:
 		return "(decide (" + argv()[0] + " = " + argv()[1] + "))"
 	case pkg == "crypto/subtle" && recv == "":
@@ -969,6 +1171,9 @@ func (t *tr) call(c *ast.CallExpr) string {
 			return "(GoSem.ctLessOrEq " + strings.Join(argv(), " ") + ")"
 		}
 	case pkg != "" && recv == "":
+		if sg := t.calleeSig(c); sg != nil && sg.nImplicit > 0 {
+			return t.callSig(name, sg, c)
+		}
 		if u := t.unitOfPath(pkg); u != nil && u.emitted[name] {
 			return t.callTranslated(u, name, nil, c)
 		}
@@ -1009,9 +1214,9 @@ func (t *tr) callSig(name string, sg *fsig, c *ast.CallExpr) string {
 		return t.fail(c, "call arity of %s", name)
 	}
 	if len(args) == 0 {
-		return t.qualified(name)
+		return sg.qual
 	}
-	return "(" + t.qualified(name) + " " + strings.Join(args, " ") + ")"
+	return "(" + sg.qual + " " + strings.Join(args, " ") + ")"
 }
 
 // qualified: the full name of a definition of the current unit (a Go local of the same name would otherwise shadow it
@@ -1101,7 +1306,7 @@ func (t *tr) procCall(name string, sg *fsig, c *ast.CallExpr) (outs []procOut, c
 		t.fail(c, "call arity of %s", name)
 		return
 	}
-	call = "(" + t.qualified(name) + " " + strings.Join(args, " ") + ")"
+	call = "(" + sg.qual + " " + strings.Join(args, " ") + ")"
 	ok = true
 	return
 }
